@@ -8,6 +8,7 @@ class C08(vlib.Spec):
     theorems = ["C08_history", "C08_insert", "C08_contains", "C08_iter_nodup", "C08_merge", "C08_pcmp", "C08_pcmp_rel", "C08_eq",
                 "C08_prefix", "C08_find_leaf", "C08_join", "C08_join_nodup", "C08_cart", "C08_force", "C08_holds_b_sound",
                 "C08_multiset_insert", "C08_multiset_merge", "C08_multiset_force_drain",
+                "C08_colt_get", "C08_colt_history",
                 "C08_pcmp_any_children", "C08_eq_any_children", "C08_merge_any_children", "C08_wf_is_weak"]
     crate, group, binary = "h_coll", "light", "h_coll"
     imports = "From HV Require Import Coll.ModelGHT2."
